@@ -662,6 +662,11 @@ func (generator *ConverterGenerator) guardForAssignments(valuesRootPath ast.Path
 		// TODO: is that correct/needed?
 		if assignment.Method != ast.AppendAssignment && assignment.Value.Envelope != nil {
 			for _, envelopePath := range assignment.Value.Envelope.Values {
+				// only what can be nil is compared with nil
+				if len(envelopePath.Path) == 0 || !generator.nullableTypes.TypeIsNullable(envelopePath.Path.Last().Type) {
+					continue
+				}
+
 				guard := MappingGuard{
 					Path:  valuesRootPath.Append(assignment.Path.Append(envelopePath.Path)),
 					Op:    ast.NotEqualOp,
